@@ -385,3 +385,52 @@ def none_sources(body, l, seen=None, tsites=None):
             else:
                 out.append(('call', c, c.ln))
     return out
+
+
+@rule('C05', 'no-extra-master-secrets', configs=('default', 'p256'))
+def no_extra_master_secrets(ctx):
+    """A refreshed key gains only secrets NEWER than its newest one: a clone of a master-chain element is pushed either while
+    searching for the user's newest secret (on the not-equal edge of the comparison with that first user secret) or, afterwards,
+    on the equal edge of a comparison with the user secret it matches. Pushing master elements that differ from the user's
+    older secrets hands the key old secrets it never held."""
+    from .c13 import loop_depths
+    F = ctx.F
+    n = 0
+    for body in lib.family_ext(F, 'core::primitives::refresh_coordinate_keys'):
+        pushes = [c for c in body.calls(*PUSH) if 'RightSecretKey' in c.full and flags.PAIR_TY not in c.full
+                  and from_master_chain(F, body, c.args[1])]
+        if not pushes:
+            continue
+        depth, _dom = loop_depths(body)
+        guards = [g for g in eq_guards(body) if 'RightSecretKey' in (g[0].self_ty or '')]
+        for c in pushes:
+            n += 1
+            ok = False
+            why = 'no comparison with a user secret decides it'
+            def master_next(op):
+                return set(x.b for x in backward_slice(body, [op], follow_mutarg=False).calls
+                           if x.is_(r'^std::iter::Iterator::next$') and flags.PAIR_TY in (x.self_ty or ''))
+            pushed_from = master_next(c.args[1])
+            for (gc, te, fe) in guards:
+                ms = [i for i in (0, 1) if from_master_chain(F, body, gc.args[i])]
+                if len(ms) != 1:
+                    continue
+                # the comparison must be about the very element that is pushed (same next() of the master chain)
+                if pushed_from and not (master_next(gc.args[ms[0]]) & pushed_from):
+                    continue
+                user = gc.args[1 - ms[0]]
+                if body.edges_dominate(implied_edges(body, (gc, te, fe)), c.b):
+                    ok = True
+                    break
+                if fe is not None and body.edge_dominates(fe, c.b):
+                    # not-equal edge: legitimate only against the user's NEWEST secret (drawn once, outside any loop)
+                    nx = [x for x in backward_slice(body, [user], follow_mutarg=False).calls
+                          if x.is_(r'^std::iter::Iterator::next$') and flags.PAIR_TY not in (x.self_ty or '')]
+                    if nx and all(depth.get(x.b, 0) == 0 for x in nx):
+                        ok = True
+                        break
+                    why = 'it is pushed when it DIFFERS from one of the user\'s older secrets (comparison at line %d)' % gc.ln
+            ctx.check(ok, 'core::primitives::refresh_coordinate_keys', 'push(master element) only newer-than-newest or matched',
+                      'a master secret is pushed onto the refreshed chain (line %d) although %s: the refreshed key receives secrets it '
+                      'never held' % (c.ln, why), 'before the newest user secret is found, or equal to a user secret', c.where())
+    ctx.floor(n, 2, 'pushes of master-chain elements')
